@@ -288,7 +288,7 @@ func TestVerifC10(t *testing.T) {
 		}
 	}
 
-	nCfg := vfutil.Scale(400, 4000)
+	nCfg := vfutil.Scale(400, 8000)
 	for i := 0; i < nCfg; i++ {
 		e.RunGenerated(r, 1, 15, 25)
 		c := vfc10.GenCfg(r, "O")
